@@ -54,6 +54,8 @@ theorem decode_encode (nb q : Nat) (d : DomainRec) (rest : List UInt8) (hq : q â
   rw [readElem_append _ _ _ _ h4 hq]; simp only []
   rw [readElem_append _ _ _ _ h5 hq]; simp only []
   rw [takeN_append 1 [if d.precomp then 1 else 0] rest (by simp)]
-  simp only [hcard, hflag]
+  have hle : beToNat [if d.precomp then 1 else 0] â‰¤ 1 := by
+    cases d.precomp <;> simp [beToNat]
+  simp only [hcard, hflag, hle, if_true]
 
 end GV.FFT
